@@ -9,7 +9,8 @@ K = []
 
 FIXED = {  # finding -> fix commit in the repository (round 2)
     "pp-if-32bit": "3499036", "str-range-rev-neg": "56370ef", "lv-range-const-rev": "fa775d5",
-    "fold-add-zero-real": "0455d4e", "zero-minus-neg": "d913250"}
+    "fold-add-zero-real": "0455d4e", "zero-minus-neg": "d913250",
+    "buf-store-zero": "%s", "rev-range-wrap": "%s"}
 ROOT = os.path.dirname(os.path.dirname(os.path.abspath(__file__)))
 
 
